@@ -41,7 +41,8 @@ def toInputB (env : EnvB) (gen : digest.Algorithm → ocispec.Descriptor × Opti
     parseOk := true, integrityOk := true, payloadTypeOk := true, rest := ps.1.isNone,
     decoded := if um.1.isNone then some (descOf um.2) else none,
     artifact := descOfD g.1, hashSupported := lk.2 && g.2.isNone, required := opts.UserMetadata,
-    reader := "", viaRegistry := false, refDigest := none, resolveOk := true, refForm := "", plugin := false }
+    reader := "", viaRegistry := false, refDigest := none, resolveOk := true, refForm := "", plugin := false,
+    blobLen := 0, boundary := 0 }
 
 /-- what the tie compares: was an error returned, and does the returned outcome carry one -/
 def viewB (r : Option blob.«notation».VerificationOutcome × Option GoLite.Err) : Bool × Option Bool :=
